@@ -22,3 +22,6 @@ MUSTFAIL_PER_FN = {'quick': 1, 'thorough': 4}
 FUNCTIONS = FUNCTIONS + [M + '__init__', N + 'assert_valid_input']
 
 FUNCTIONS = FUNCTIONS + [M + 'match_nth', M + 'match_nth_tag_type']
+
+FUNCTIONS = FUNCTIONS + ['soupsieve.css_match.CSSMatch.match_range', 'soupsieve.css_match._DocumentNav.get_attribute_by_name']
+SHARDS = {'match_range': 8, 'parse_value': 8, 'match_selectors': 16, 'match_nth': 4}
